@@ -1,4 +1,5 @@
 import DaeVerif.C01.Proofs
+import DaeVerif.C01.Position
 /-!
 # C01 — property theorems (first-match routing semantics)
 -/
@@ -16,6 +17,14 @@ theorem match_is_first_match (rules : List SRule) (fb : Out) (p : Pkt) (hp : p.W
   rw [scan_lower (evalM p) MCond.fallback rfl fb (rules.map compileRule) false]
   simp only [Option.map_some]
   exact congrArg some (firstMatch_compile p hp rules hr fb false)
+
+/-- **Headline, as the code runs it.** `Match` evaluates a `domain(...)` match set by testing bit `i`
+of the domain bitmap, `i` being the loop index, and the builder registers every domain key group
+under `RuleIndex = len(b.rules)`: with this position bookkeeping modelled (`matchAt`), the decision is
+still the first-match specification. -/
+theorem match_by_position_is_first_match (rules : List SRule) (fb : Out) (p : Pkt) (hp : p.WF)
+    (hr : ∀ r ∈ rules, r.WF) : matchAt rules fb p = some (firstMatchS p rules fb false) := by
+  rw [matchAt_eq_matchM]; exact match_is_first_match rules fb p hp hr
 
 -- non-vacuity: a concrete two-rule program and packet satisfy the hypotheses, and the theorem's
 -- right-hand side is the second rule's outbound
